@@ -30,6 +30,8 @@ import (
 //	  pos:  the failing input is inserted before base input number pos (pos = n: after the last)
 //	  kind: e = default options, t = MaxDuration 1ms (deadline), l = line mode (incomplete input)
 //	obs:   <items> @@ A:<run a> ## <run b> @@ B:... @@ C:... @@ D:...
+//	       or DEADLINE (an input that is not of the deadline kind was cancelled by the 500 ms wall-clock limit: the
+//	       case is void)
 //	  items: the inputs of run (a) in order, `|`-separated: B<ast> (base) or F<kind><ast> (failing);
 //	         <ast> = tree dump, P (parse error) or I (incomplete)
 //	  run:   per input, `/`-separated:
@@ -109,7 +111,7 @@ func parseSessionCase(input string) (sessCase, bool) {
 }
 
 func sessOptions(kind byte) repl.Options {
-	o := repl.Options{All: true, ShowEval: true, NoColor: true, NilAndErr: true, MaxDuration: 2 * time.Second}
+	o := repl.Options{All: true, ShowEval: true, NoColor: true, NilAndErr: true, MaxDuration: 500 * time.Millisecond}
 	switch kind {
 	case 't':
 		o.MaxDuration = time.Millisecond
@@ -140,8 +142,11 @@ func sessAst(it sessItem) string {
 	return sb.String()
 }
 
-// one history on one fresh persistent state, every input through repl.EvalOne
-func sessRunHistory(items []sessItem, cacheOff, noReg bool, maxDepth int) string {
+// one history on one fresh persistent state, every input through repl.EvalOne.
+// ok = false: an input other than the deadline kind ran into its (generous, wall-clock) deadline, e.g. a generated
+// loop that does not terminate; what such an input printed or wrote before it was cancelled depends on timing, so
+// the case says nothing about the property and is reported as DEADLINE.
+func sessRunHistory(items []sessItem, cacheOff, noReg bool, maxDepth int) (obs string, ok bool) {
 	eval.VerifCacheOff = cacheOff
 	// as repl.EvalStringWithOption sets a state up, except that State.Out and EvalOne's `out` are two
 	// writers: what the program prints and what the REPL prints as the result are told apart.
@@ -164,6 +169,9 @@ func sessRunHistory(items []sessItem, cacheOff, noReg bool, maxDepth int) string
 		sessionOut.Reset()
 		resultOut.Reset()
 		cont, panicked, errs, _ := repl.EvalOne(context.Background(), s, it.text, resultOut, sessOptions(it.kind))
+		if it.kind != 't' && len(errs) > 0 && strings.Contains(strings.Join(errs, " "), "context deadline exceeded") {
+			return "", false
+		}
 		g := sessGlobals(s)
 		gs := sessDelta(prevG, g)
 		prevG = g
@@ -171,7 +179,7 @@ func sessRunHistory(items []sessItem, cacheOff, noReg bool, maxDepth int) string
 			hx(sessionOut.String()), hx(resultOut.String()), b2s(len(errs) > 0), b2s(panicked), b2s(cont),
 			s.VerifDepth(), b2s(s.VerifAtRoot()), b2s(s.VerifOutIs(sessionOut)), s.VerifRootEnv().VerifNumReg(), gs)
 	}
-	return sb.String()
+	return sb.String(), true
 }
 
 // the globals of the session's root scope (pre-seeded identifiers excluded), each value in the canonical dump syntax
@@ -242,10 +250,17 @@ func sessionRun(input string) string {
 		name            string
 		cacheOff, noReg bool
 	}{{"A", false, false}, {"B", false, true}, {"C", true, false}, {"D", true, true}} {
-		sb.WriteString(" @@ " + cfg.name + ":")
-		sb.WriteString(sessRunHistory(c.runA, cfg.cacheOff, cfg.noReg, c.maxDepth))
-		sb.WriteString(" ## ")
-		sb.WriteString(sessRunHistory(baseItems, cfg.cacheOff, cfg.noReg, c.maxDepth))
+		a, okA := sessRunHistory(c.runA, cfg.cacheOff, cfg.noReg, c.maxDepth)
+		if !okA {
+			eval.VerifCacheOff = false
+			return "DEADLINE"
+		}
+		b, okB := sessRunHistory(baseItems, cfg.cacheOff, cfg.noReg, c.maxDepth)
+		if !okB {
+			eval.VerifCacheOff = false
+			return "DEADLINE"
+		}
+		sb.WriteString(" @@ " + cfg.name + ":" + a + " ## " + b)
 	}
 	eval.VerifCacheOff = false
 	return sb.String()
